@@ -183,3 +183,23 @@ Proof.
   unfold prepared. split; [vm_compute; reflexivity|]. split; [vm_compute; auto|].
   split; [intros _; vm_compute; reflexivity|]. right. exists [], false. vm_compute. auto.
 Qed.
+
+(* a sequence with a capture and a use: cdata:"(?P<v>[a-z])" then cdata:" @v@x" on the payload "q qx"
+   (programs and facts as dumped from the Go code; table: value "q" -> the compiled " (?:q)x") *)
+Definition tbl_var : list rx :=
+  [ mkRx (mkProg [ mkInst IFail 0 0 [] []; mkInst ICapture 2 2 [] []; mkInst IRune 3 0 [97; 122]%N []; mkInst ICapture 4 3 [] [];
+                   mkInst IMatch 0 0 [] [] ] 1) 4 (mkFacts [] [] 1%N 1%N) [None; Some 0];
+    mkRx (mkProg [ mkInst IFail 0 0 [] []; mkInst IRune1 2 0 [32%N] []; mkInst IRune1 3 0 [113%N] []; mkInst IRune1 4 0 [120%N] [];
+                   mkInst IMatch 0 0 [] [] ] 1) 2 (mkFacts [32; 113; 120]%N [32; 113; 120]%N 3%N 3%N) [None];
+    mkRx (mkProg [ mkInst IFail 0 0 [] []; mkInst IRune1 3 0 [32%N] []; mkInst IRuneAny 3 0 [0; 1114111]%N []; mkInst IAlt 2 4 [] [];
+                   mkInst IRune1 5 0 [120%N] []; mkInst IMatch 0 0 [] [] ] 1) 2 (mkFacts [32%N] [] 2%N MAXU) [None] ].
+Definition cond_var : cond :=
+  mkCond false [ mkElem false (EFixed 0); mkElem false (ESubst 2 [0] [([[113%N]], 1)]) ].
+Definition stream_var : stream := mkStream [(false, [113; 32; 113; 120]%N)] [].
+Example c04_ex_variables :
+  stream_selected 100 true tbl_var CAny [[cond_var]] stream_var = true /\
+  stream_spec 100 tbl_var CAny [[cond_var]] stream_var = true /\
+  first_err 100 true tbl_var CAny [cond_var] stream_var = 0 /\
+  map p_n (source_eval 100 true tbl_var [cond_var] (s_raw stream_var)) = [2] /\
+  map p_vars (source_eval 100 true tbl_var [cond_var] (s_raw stream_var)) = [[(0, [113%N])]].
+Proof. vm_compute. auto 10. Qed.
